@@ -28,6 +28,8 @@ def translate(ctx):
     ctx.extra.setdefault('coverage', {})['translator_available'] = ok
     if not ok:
         ctx.notes.append(f'translator failed closed ({why}); C11 rests on correspondence alone in this run')
+        ctx.obligations += 3
+        ctx.problem('proof', 'gen_zeropad', None, f'zero_pad_or_crop.py is outside the translated subset ({why}): the regenerated obligations cannot be stated')
         return
     ctx.obligations += 3
     rc, so, se = vlib.coqc_file(out)
